@@ -54,6 +54,8 @@ pub enum Ty {
     Map(Box<Ty>, Box<Ty>),
     /// another schema type, by name
     Named(&'static str),
+    /// `minicbor::data::Tagged<N, T>`: tag N, then the value; never nil itself
+    Tagged(u64, Box<Ty>),
     /// u32 with the custom nil-aware codec (`dsupport::codecs::nilu32`): 0 is nil and is written as null
     NilU32,
 }
